@@ -73,11 +73,17 @@ fn check_backing(ms: &MinerSnap, vr: &VrSnap, backing: &Backing, epoch: ChainEpo
     }
 }
 
-pub fn history(index: u64, mut rng: Rng, tier: Tier, directed: bool) -> Outcome {
+pub fn history(index: u64, mut rng: Rng, tier: Tier, mode: u8) -> Outcome {
+    // mode 0: random history; 1: directed repeated-claim declaration; 2: directed split declaration
+    let directed = mode != 0;
     let mut o = Outcome::default();
     let mut w = miner_world(7_000_000 + index, miner_policy(4096), &[false], 80, 200 + rng.range(0, 2000));
     w.miners[0].auto_post = true;
     let m = w.miners[0].clone();
+    // with the network's power estimate converged to this small network, a 32 GiB sector costs
+    // ~260k FIL of pledge and deposit: fund the miner accordingly
+    let (r, _) = call0(&w.v, &m.owner, &m.addr, &fil(30_000_000), fvm_shared::METHOD_SEND);
+    assert!(r.code.is_success());
     let policy = w.v.policy.clone();
     let verifier = w.others[0];
     let client = w.others[1];
@@ -252,7 +258,7 @@ pub fn history(index: u64, mut rng: Rng, tier: Tier, directed: bool) -> Outcome 
                 }
                 let mut maintain = vec![];
                 let mut drop = vec![];
-                match if directed { 2 } else { rng.weighted(&[40, 20, 15, 15, 10]) } {
+                match if mode == 1 { 2 } else if mode == 2 { 0 } else { rng.weighted(&[40, 20, 15, 15, 10]) } {
                     0 => maintain = ids.clone(),
                     1 => {
                         // drop some
@@ -287,11 +293,35 @@ pub fn history(index: u64, mut rng: Rng, tier: Tier, directed: bool) -> Outcome 
                     2 => min_tmax_end + rng.range(-1, 1),
                     _ => s.expiration - rng.range(0, 5) * DAY,
                 };
-                let params = ExtendSectorExpiration2Params {
-                    extensions: vec![ExpirationExtension2 { deadline: d, partition: p, sectors: BitField::new(), sectors_with_claims: vec![SectorClaim { sector_number: sn, maintain_claims: maintain.clone(), drop_claims: drop.clone() }], new_expiration: new_exp }],
+                // split shape: the claims are declared in one declaration (at an expiration they all allow)
+                // and the same sector is named again, without claims, in a second declaration of the message
+                let split = mode == 2 || (mode == 0 && rng.chance(1, 6));
+                // two-entry shape: the sector's claims are spread over two SectorClaim entries of one declaration
+                let two_entries = maintain.len() >= 2 && if mode == 1 { index % 2 == 1 } else { rng.chance(1, 5) };
+                let entries = if two_entries {
+                    let cut = 1 + rng.below(maintain.len() as u64 - 1) as usize;
+                    vec![
+                        SectorClaim { sector_number: sn, maintain_claims: maintain[..cut].to_vec(), drop_claims: vec![] },
+                        SectorClaim { sector_number: sn, maintain_claims: maintain[cut..].to_vec(), drop_claims: drop.clone() },
+                    ]
+                } else {
+                    vec![SectorClaim { sector_number: sn, maintain_claims: maintain.clone(), drop_claims: drop.clone() }]
                 };
+                let with_claims = ExpirationExtension2 { deadline: d, partition: p, sectors: BitField::new(), sectors_with_claims: entries, new_expiration: if split { s.expiration + if rng.chance(1, 2) { 0 } else { DAY } } else { new_exp } };
+                let mut extensions = vec![with_claims];
+                if split {
+                    let mut plain = BitField::new();
+                    plain.set(sn);
+                    let second = ExpirationExtension2 { deadline: d, partition: p, sectors: plain, sectors_with_claims: vec![], new_expiration: new_exp };
+                    if rng.chance(1, 4) {
+                        extensions.insert(0, second);
+                    } else {
+                        extensions.push(second);
+                    }
+                }
+                let params = ExtendSectorExpiration2Params { extensions };
                 let (r, inv) = call(&w.v, &m.worker, &m.addr, &TokenAmount::zero(), MinerMethod::ExtendSectorExpiration2 as u64, Some(&params));
-                o.op(format!("{step}: e{epoch} extend sector {sn} (exp {}, backing {:?}, min claim end {min_tmax_end}) to {new_exp} maintain {:?} drop {:?} -> {} {}", s.expiration, ids, maintain, drop, r.code, &r.message[..r.message.len().min(70)]));
+                o.op(format!("{step}: e{epoch} extend sector {sn} (exp {}, backing {:?}, min claim end {min_tmax_end}) to {new_exp}{} maintain {:?} drop {:?} -> {} {}", s.expiration, ids, if split { " [split: claims declared at the current expiration, sector named again without claims]" } else if two_entries { " [claims spread over two entries]" } else { "" }, maintain, drop, r.code, &r.message[..r.message.len().min(70)]));
                 if r.code.is_success() {
                     extensions_ok += 1;
                     let mut shape = String::new();
@@ -301,6 +331,12 @@ pub fn history(index: u64, mut rng: Rng, tier: Tier, directed: bool) -> Outcome 
                     }
                     if !drop.is_empty() {
                         shape.push_str("with-drops ");
+                    }
+                    if split {
+                        shape.push_str("split-declarations ");
+                    }
+                    if two_entries {
+                        shape.push_str("two-claim-entries ");
                     }
                     o.seen("accepted_extension_shapes", if shape.is_empty() { "plain".to_string() } else { shape });
                 }
@@ -371,9 +407,14 @@ pub fn run(cfg: &Cfg) -> i32 {
     let tier = cfg.tier;
     // registry-side history facts (term_max monotone, removal only after expiry) over the DataCap workload
     let mut agg = super::c09::run_focus(cfg, "C10");
-    agg.run_parallel("verified-sectors", tier.pick(16, 700), Duration::from_secs(tier.pick(300, 1700)), |i, rng| history(i, rng, tier, false));
+    agg.run_parallel("verified-sectors", tier.pick(16, 700), Duration::from_secs(tier.pick(300, 1700)), |i, rng| history(i, rng, tier, 0));
     // directed hostile input: two equal-sized claims with different maximum terms, extension declaring one of them twice
-    agg.run_parallel("repeated-claim-declaration", tier.pick(6, 60), Duration::from_secs(tier.pick(200, 900)), |i, rng| history(i, rng, tier, true));
+    agg.run_parallel("repeated-claim-declaration", tier.pick(6, 60), Duration::from_secs(tier.pick(200, 900)), |i, rng| history(i, rng, tier, 1));
+    // directed hostile input: claims declared in one declaration, the sector named again without claims in a second one
+    agg.run_parallel("split-declaration", tier.pick(6, 60), Duration::from_secs(tier.pick(200, 900)), |i, rng| history(i, rng, tier, 2));
+    agg.require("verified_sectors_onboarded", 8);
+    agg.require("extensions_accepted", 4);
+    agg.require("claims_observed", 8);
     agg.finish(
         "exploration",
         "workload `verified-sectors`: one real 32 GiB miner (kept proven by the harness, plus the pledge whale), a verifier and a client; 26-40 composite ops: verified onboarding of a sector with 1-3 pieces of equal or different sizes (DataCap transfer creating allocations, pre-commit with the pieces' CommD, ProveCommitSectors3 with verified_allocation_key manifests so that the miner itself claims), ExtendSectorExpiration2 with maintain/drop declarations that are correct, partial, contain a repeated claim id, omit claims or name unknown ids, to expirations inside / at / beyond the backing claims' term_max, ExtendClaimTerms, RemoveExpiredClaims, TerminateSectors, time advances aimed at the final-30-day drop window and claim term ends; the shadow (sector -> backing claims) is updated only from observed successful ClaimAllocations and accepted drops; workload `datacap`: the C09 histories, judged for term_max monotonicity and removal-after-expiry. Non-trivial = at least one verified sector onboarded and one extension accepted",
